@@ -126,6 +126,15 @@ def rval(rng, tp, depth, with_ids):
             x = rinst(rng, inner, depth + 1, with_ids)
             if x is not None:
                 out.append(x)
+        if out and rng.random() < 0.2:
+            # list items whose fields are all unset encode to nothing: in leading or middle position they are still
+            # delimited by the 00 00 separators (a trailing one is indistinguishable from "no more items" and is not generated)
+            try:
+                empty = inner()
+                pos = rng.randrange(0, len(out))
+                out[pos:pos] = [empty] * rng.choice([1, 1, 2])
+            except TypeError:
+                pass
         return out or None
     if tp in SIZES:
         k = SIZES[tp]
@@ -224,6 +233,31 @@ def mask(inst):
     return tuple(getattr(inst, f.name) is not None for f, _ in fields_of(type(inst)))
 
 
+def scramble(obj, rng, depth=0):
+    """modify a decoded object in place, nested structs and list items included"""
+    import dataclasses
+    if depth > 4 or not dataclasses.is_dataclass(obj):
+        return
+    for f in dataclasses.fields(obj):
+        v = getattr(obj, f.name)
+        if dataclasses.is_dataclass(v):
+            scramble(v, rng, depth + 1)
+        elif isinstance(v, list):
+            for x in v:
+                scramble(x, rng, depth + 1)
+            if v:
+                v.append(v[0])
+        elif isinstance(v, bool) or v is None:
+            continue
+        elif isinstance(v, int):
+            try:
+                setattr(obj, f.name, type(v)((int(v) + 1) % 200))
+            except Exception:  # noqa: BLE001
+                pass
+        elif isinstance(v, (bytes, str)):
+            setattr(obj, f.name, v[:0])
+
+
 def impl_decode(cls, data):
     try:
         return "ok " + show_struct(cls.decode(data))
@@ -283,6 +317,16 @@ def run(ctx: Ctx, driver: Driver):
                 if enc != ref_struct(inst):
                     ctx.violation(f"enc/{name.split('.')[-1]}/not-canonical", f"{name}: encoding is not the canonical TLV8 form (declaration order, 255-byte fragments, 00 00 between list items)", case)
                 back = impl_decode(cls, enc)
+                if back == "ok " + val and rng.random() < 0.5:
+                    # decoding is a function of the bytes: changing what an earlier decode returned must not change a later one
+                    try:
+                        first = cls.decode(enc)
+                        scramble(first, rng)
+                        again = impl_decode(cls, enc)
+                        if again != "ok " + val:
+                            ctx.violation(f"roundtrip/{name.split('.')[-1]}/decode-not-pure", f"{name}: decoding the same bytes again after the first decoded object was modified gives a different value (decoded objects are shared)", case)
+                    except Exception as e:  # noqa: BLE001
+                        ctx.violation(f"roundtrip/{name.split('.')[-1]}/decode-not-pure", f"{name}: second decode raised {type(e).__name__}", case)
                 if back != "ok " + val:
                     # duplicate TLV types make the earlier field come back under the later name
                     sig = f"roundtrip/{name.split('.')[-1]}" + ("/duplicate-type-" + "-".join(map(str, dups)) if dups and explained(cls, inst, lambda x: x.encode(), False, dups) else "")
